@@ -30,6 +30,27 @@ add("C19", "model_checking",
     "The source reader's answers and the writer chunk sizes are choice points owned by the explorer; all executions with up to 2-4 deviations from the default answer (per length class), for every length in the stated ranges and block sizes 8 and 16, run on the real code and are compared with source||pad, the unpadded data, and CBC over an independent SM4; every invalid final-block pattern must be reported as an error.",
     "sources only fail with io.EOF; refsm4 + crypto/cipher CBC", "DESIGN.md §3 C19")
 
+add("C01", "exploration",
+    "exhaustive product enumeration (keys x message lengths x user IDs x scripted nonce streams; every single-field perturbation; catalogue of non-DER encodings) against an independent GM/T 0003.2 reference",
+    "Complete product of structured alphabets (boundary and leading-zero keys found by deterministic search, 14 message lengths, 8 ID shapes, 9 nonce streams delivered through a scripted reader whose consumption is observed) for Sm2Sign/Sm2Verify/Verify/Sm3Digest/PrivateKey.Sign/PublicKey.Verify; acceptance of every single-field perturbation and of 24 malformed encodings decided by the reference verifier.",
+    "refsm2/refsm3 anchored on the GM/T 0003.5 examples; retry branches of signing need an SM3 preimage and are not reachable", "DESIGN.md §3 C01")
+add("C02", "exploration",
+    "exhaustive product enumeration (keys x lengths x constructed nonces x 3 encodings, nonce-retry branch driven by searched nonces) plus fault enumeration (every byte substitution / truncation / invalid-curve C1 of order 2 and 3) against an independent GM/T 0003.4 reference",
+    "Complete products for encryption conformance (byte-for-byte equality with the reference for the nonce supplied through a scripted reader, including nonces whose KDF output is all zero) and complete fault catalogues for rejection (single-byte substitutions, truncations, other key, invalid-curve points with ciphertexts built for every guess of d mod q).",
+    "refsm2/refsm3 anchored on the GM/T 0003.5 examples; step budget on the random stream instead of a stop-watch", "DESIGN.md §3 C02")
+add("C03", "model_checking",
+    "explicit-state breadth-first search over curve points (state = discrete log, transitions = real Add/Double/ScalarMult on the implementation's own outputs) compared with affine reference arithmetic; exhaustive scalar and field-limb alphabets",
+    "Explicit-state search to depth 5/6 over 18 operations from {infinity, G} with state matching on the discrete log (sound: the implementation's whole state is the affine pair, compared at every step), plus exhaustive alphabets: scalars (boundaries of n, 2^j, windows, every comb-table entry, leading zeros, 0..40 bytes) x 5 points, and every canonical field element whose Montgomery limbs are drawn from {0,1,max[-1]} in all 9 positions through IsOnCurve/Double/Add.",
+    "refsm2 affine arithmetic over math/big; values off the alphabets are not covered (DESIGN §4)", "DESIGN.md §3 C03")
+add("C13", "exploration",
+    "exhaustive product enumeration (long-term keys x ephemeral keys x identity lengths x key lengths, searched short shared points, bad peer ephemerals) against an independent GM/T 0003.3 reference that reproduces the standard's worked example",
+    "All 12x12x12 index combinations of the key alphabet for long-term and ephemeral keys with identity and key-length classes, both roles executed on the library; K, S1, S2 compared between the sides and with the reference; off-curve/infinite ephemerals and V=infinity must fail.",
+    "refsm2 key exchange reproduces K, SB, SA of GM/T 0003.5", "DESIGN.md §3 C13")
+add("C14", "exploration",
+    "exhaustive product enumeration (key alphabet with forced leading-zero / odd-hex-digit values x every codec pair x passwords; wrong-password variants; all certificate/key pairs per TLS loader) with field-by-field comparison",
+    "Every value of the structured alphabets through every offered encode/decode pair, every wrong-password variant refused, every (certificate, key) pair over 5 identities accepted by each loader iff matching.",
+    "public points computed by refsm2; library-internal salts/IVs are not observed", "DESIGN.md §3 C14")
+
 NA_REASON = "check not built yet in this session (work in progress; DESIGN.md §3 describes the planned bounded exhaustive check)"
 
 def main():
